@@ -1,4 +1,6 @@
 import Model.TypeStr
+import Model.FrameCrash
+import Model.RowsCrash
 import Driver.Util
 namespace Driver.C05
 open Util
@@ -26,10 +28,59 @@ def typeStr (ws : List String) : Option String :=
       | _ => none
   | _ => none
 
+/-- frame <proto> <resp 0|1> <flags> <op> <hex body> ; rows <proto> <flags> <hex body> ;
+    hdr <hex wire> ; body <proto> <length> <flags> <hex avail> -/
+def frameOps (ws : List String) : Option String :=
+  let bytes (h : String) : Option (List Nat) := (parseHex h).map (fun bs => bs.map (·.toNat))
+  match ws with
+  | ["frame", proto, resp, flags, op, h] =>
+    match proto.toNat?, resp.toNat?, flags.toNat?, op.toNat?, bytes h with
+    | some proto, some resp, some flags, some op, some body =>
+      if FrameCrash.bit flags 0 then some "err" else
+      some (match FrameCrash.parseFrame false (proto % 128) (resp == 1) flags op body with
+        | .ok fr _ => "ok:" ++ fr.kind
+        | .err _ => "err"
+        | .crash s _ => "crash:" ++ s.label)
+    | _, _, _, _, _ => some "bad-op"
+  | ["rows", proto, flags, h] =>
+    match proto.toNat?, flags.toNat?, bytes h with
+    | some proto, some flags, some body =>
+      if FrameCrash.bit flags 0 then some "err" else
+      some (match FrameCrash.parseFrame false (proto % 128) true flags 8 body with
+        | .ok (.rows m n) st =>
+          (match RowsCrash.scanAll false m n st.buf with
+           | .ok k => "ok:rows:" ++ toString k
+           | .capped => "ok:rows:capped"
+           | .err k => "err:rows:" ++ toString k
+           | .crash s => "crash:" ++ s.label)
+        | .ok fr _ => "ok:" ++ fr.kind
+        | .err _ => "err"
+        | .crash s _ => "crash:" ++ s.label)
+    | _, _, _ => some "bad-op"
+  | ["hdr", h] =>
+    match bytes h with
+    | some wire =>
+      some (match FrameCrash.readHeader wire with
+        | .ok v fl st op ln => "ok:" ++ toString v ++ ":" ++ toString fl ++ ":" ++ toString st ++ ":" ++ toString op ++ ":" ++ toString ln
+        | .err => "err")
+    | none => some "bad-op"
+  | ["body", _proto, length, flags, h] =>
+    match length.toInt?, flags.toNat?, bytes h with
+    | some length, some flags, some avail =>
+      let cap (a : Nat) : String := toString (if a == 0 then FrameCrash.defaultBufSize else a)
+      some (match FrameCrash.readFrame length flags avail with
+        | .ok _ a => "ok:" ++ cap a
+        | .err a => "err:" ++ cap a)
+    | _, _, _ => some "bad-op"
+  | _ => none
+
 def step (_ : Unit) (ws : List String) : Unit × String :=
   ((), match typeStr ws with
        | some a => a
-       | none => "bad-op")
+       | none =>
+         match frameOps ws with
+         | some a => a
+         | none => "bad-op")
 
 def init : Unit := ()
 end Driver.C05
